@@ -150,7 +150,10 @@ def run_spec(spec):
             idx = getattr(tls, 'submitting', None)
         releases[idx] = releases.get(idx, 0) + 1
         log.add('sem.release', idx=idx)
-        return orig_rel(**kw)
+        try:
+            return orig_rel(**kw)
+        finally:
+            log.add('sem.released', idx=idx)
 
     # the moment a transfer is reported as having finished its done callbacks: publishing / removing the temporary file of a path
     # download is one of those callbacks
@@ -417,6 +420,11 @@ def evaluate(spec, run):
             viol.append(V(f'transfer {i}: permit released before the last subscriber on_done returned', sym='release-before-on_done', **m))
         if se and dn_ret and max(dn_ret) > se[0]:
             viol.append(V(f'transfer {i}: {spec.get("exit")} returned before its on_done callbacks finished', sym='exit-before-on_done', **m))
+        released = [e['n'] for e in ev if e['kind'] == 'sem.released' and e['idx'] == i]
+        if se and released and max(released) > se[0]:
+            # (giving the permit back is one of the transfer's done callbacks)
+            viol.append(V(f'transfer {i}: {spec.get("exit")} returned while the transfer still held its concurrency permit (the done callback that gives it '
+                          f'back had not finished)', sym='exit-before-release', **m))
         if se and not dn and not t.get('raise_on_done'):
             pass
         # outcome
@@ -571,6 +579,24 @@ def gen_cases(tier, seed):
                     ts.append(dict({'kind': k, 'outcome': rng.choice(OUTCOMES + ['ok', 'ok']), 'size': rng.choice([0, 5, 40]), 'subs': rng.choice([1, 2])}, **extra))
                 cases.append({'seed': rng.randrange(1 << 30), 'permits': rng.choice([1, 2, 3]), 'transfers': ts, 'order': rng.choice(['fifo', 'reverse', 'seeded']),
                               'exit': rng.choice(['shutdown', 'shutdown_cancel', 'with', 'with_exc']), 'crt_threads': rng.choice([2, 3]),
+                              'window': {'file': 'crt.py', 'line': line[1], 'nth': nth, 'action': 'pause', 'name': f'crt.py:{line[1]}:{line[2]}', 'wait': 0.2}})
+    # the exit as a barrier when the manager's own result() loop ended early: the FIRST transfer fails (the loop stops there), the later
+    # ones complete while the exit waits for their done callbacks, and the completing thread is held at each statement of the done chain
+    # until everything else - the waiting exit included - has run as far as it can
+    chain = [l for l in yieldinj.all_lines(['crt.py'])
+             if l[2].startswith(('CRTTransferManager._release_semaphore', 'AfterDoneHandler.__call__', 'CRTTransferCoordinator.set_done_callbacks_complete',
+                                 'S3ClientArgsCreator.get_crt_callback', 'RenameTempFileHandler.__call__'))]
+    for line in chain:
+        for nth in ((0, 1, 2) if quick else (0, 1, 2, 3, 4, 5)):
+            for rep in range(1 if quick else 3):
+                n = rng.randint(2, 4)
+                k0, e0 = rng.choice(kinds)
+                ts = [dict({'kind': k0, 'outcome': rng.choice(['error', 'error', 'serialize_fail', 'make_fail', 'cancel']), 'size': 5, 'subs': 1}, **e0)]
+                for j in range(n - 1):
+                    k, extra = rng.choice(kinds)
+                    ts.append(dict({'kind': k, 'outcome': 'ok', 'size': rng.choice([5, 40]), 'subs': rng.choice([1, 2])}, **extra))
+                cases.append({'seed': rng.randrange(1 << 30), 'permits': n + 1, 'transfers': ts, 'order': 'fifo', 'family': 'exit-barrier',
+                              'exit': rng.choice(['shutdown', 'with']), 'crt_threads': rng.choice([2, 3]),
                               'window': {'file': 'crt.py', 'line': line[1], 'nth': nth, 'action': 'pause', 'name': f'crt.py:{line[1]}:{line[2]}', 'wait': 0.2}})
     rng.shuffle(cases)
     return cases
